@@ -20,10 +20,10 @@ structure RMark where
   pct : Bool
 deriving Repr, DecidableEq
 
-def digitChar (n : Nat) : Char := Char.ofNat (48 + n)
+def ringDigit (n : Nat) : Char := Char.ofNat (48 + n)
 
 def markDigits (m : RMark) : Str :=
-  if m.pct then ['%', digitChar (m.id / 10), digitChar (m.id % 10)] else [digitChar m.id]
+  if m.pct then ['%', ringDigit (m.id / 10), ringDigit (m.id % 10)] else [ringDigit m.id]
 
 def markText (m : RMark) : Str := symText m.order ++ markDigits m
 
